@@ -122,8 +122,11 @@ const OPENERS: &[(&str, &str)] = &[
 
 /// Nested constructs up to `max_depth` (the cap keeps clear of the stack-overflow finding).
 pub fn gen_deep(t: &mut Tape, max_depth: u32) -> String {
-    let depth = t.below(max_depth + 1);
     let mixed = t.chance(1, 3);
+    // mixed nestings deeper than ~40 cost seconds each (measured: the wrapper's search runs to
+    // its iteration limit with expensive child lines); they are kept shallow so the tiers stay
+    // fixed-work. Single-construct nestings go to max_depth.
+    let depth = if mixed { t.below(max_depth.min(40) + 1) } else { t.below(max_depth + 1) };
     let mut kinds = vec![];
     let first = t.below(OPENERS.len() as u32) as usize;
     for _ in 0..depth {
